@@ -903,12 +903,6 @@ impl<'value> FileReport<'value> {
         if report.name != self.name {
             panic!("Incompatible to merge")
         }
-        if self.status == Status::SKIP {
-            
-            
-            *self = report;
-            return;
-        }
         self.status = self.status.and(report.status);
         self.metadata.extend(report.metadata);
         verif_vec_extend(&mut self.not_compliant, report.not_compliant);
